@@ -55,6 +55,18 @@ pub enum ObjSpec {
         partner_value: Fx,
         partner_vars: Vec<(String, Fx)>,
     },
+    /// a number built with `clone_from` from caller-owned arrays: arbitrary (also
+    /// non-symmetric) second-order block, optionally in a non-standard memory layout
+    /// (reversed-stride vector, column-major matrix) - the logical content is what counts
+    NumberRaw {
+        second_order: bool,
+        v: Fx,
+        names: Vec<String>,
+        dual: Vec<Fx>,
+        /// n*n, row-major logical content
+        dual2: Vec<Fx>,
+        layout: u8,
+    },
     /// two independent numbers of one kind whose variable lists collide under naive keying
     /// (e.g. ["a,b","c"] and ["a","b","c"]); both get restarted in the same process
     NumberPair {
@@ -151,8 +163,38 @@ fn probe_dates(rng: &mut Rng, cals: &[&CalSpec]) -> Vec<i64> {
 
 pub fn generate(rng: &mut Rng, tier: Tier) -> Plan {
     let max_hols = if tier == Tier::Quick { 60 } else { 400 };
-    let kind = rng.weighted(&[22, 8, 8, 6, 22, 16, 18, 5]);
+    let kind = rng.weighted(&[22, 8, 8, 6, 22, 16, 18, 5, 5]);
     match kind {
+        8 => {
+            let n = rng.usize_in(1, 4);
+            let names = crate::rsx::gen_names(rng, n, "r_");
+            let moderate = rng.chance(0.7);
+            let mut f = |r: &mut Rng| {
+                if moderate {
+                    awkward(r, 1e-3, 1e3, true)
+                } else {
+                    raw_double(r)
+                }
+            };
+            let dual: Vec<Fx> = (0..n).map(|_| Fx::new(f(rng))).collect();
+            let dual2: Vec<Fx> = (0..n * n).map(|_| Fx::new(f(rng))).collect();
+            let mut ops: Vec<Op> = (0..rng.usize_in(0, 2))
+                .map(|_| Op::Combine(rng.below(4) as u8))
+                .collect();
+            insert_restarts(rng, &mut ops, true);
+            Plan {
+                obj: ObjSpec::NumberRaw {
+                    second_order: rng.chance(0.6),
+                    v: Fx::new(f(rng)),
+                    names,
+                    dual,
+                    dual2,
+                    layout: rng.below(2) as u8,
+                },
+                ops,
+                probes: vec![],
+            }
+        }
         7 => {
             // colliding variable lists, both restarted in one process
             let k = 1 + rng.below(2) as u8;
@@ -470,6 +512,59 @@ pub fn build_obj(spec: &ObjSpec) -> Result<Obj, Fail> {
             x: a.to_number().map_err(herr)?,
             y: b.to_number().map_err(herr)?,
         },
+        ObjSpec::NumberRaw {
+            second_order,
+            v,
+            names,
+            dual,
+            dual2,
+            layout,
+        } => {
+            use ndarray::{s, Array1, Array2};
+            let n = names.len();
+            if dual.len() != n || dual2.len() != n * n {
+                return Err(herr("NumberRaw: inconsistent lengths in plan"));
+            }
+            let d: Vec<f64> = dual.iter().map(|x| x.get()).collect();
+            let d_arr: Array1<f64> = if *layout == 1 {
+                let mut r = d.clone();
+                r.reverse();
+                Array1::from_vec(r).slice_move(s![..;-1])
+            } else {
+                Array1::from_vec(d)
+            };
+            if *second_order {
+                let m: Vec<f64> = dual2.iter().map(|x| x.get()).collect();
+                let m_arr: Array2<f64> = if *layout == 1 {
+                    let mut tr = vec![0.0; n * n];
+                    for i in 0..n {
+                        for j in 0..n {
+                            tr[j * n + i] = m[i * n + j];
+                        }
+                    }
+                    Array2::from_shape_vec((n, n), tr)
+                        .map_err(|e| herr(e.to_string()))?
+                        .reversed_axes()
+                } else {
+                    Array2::from_shape_vec((n, n), m).map_err(|e| herr(e.to_string()))?
+                };
+                let anchor = Dual2::new(0.0, names.clone());
+                let x = Dual2::clone_from(&anchor, v.get(), d_arr, m_arr);
+                let y = Dual2::new_from(&x, 1.5, vec![]);
+                Obj::Number {
+                    x: Number::Dual2(x),
+                    y: Number::Dual2(y),
+                }
+            } else {
+                let anchor = Dual::new(0.0, names.clone());
+                let x = Dual::clone_from(&anchor, v.get(), d_arr);
+                let y = Dual::new_from(&x, 1.5, vec![]);
+                Obj::Number {
+                    x: Number::Dual(x),
+                    y: Number::Dual(y),
+                }
+            }
+        }
         ObjSpec::Cal(c) => Obj::Cal(c.build()),
         ObjSpec::Union(u) => Obj::Union(u.build()),
         ObjSpec::Named(n) => Obj::Named(named(n).map_err(herr)?),
@@ -1493,6 +1588,47 @@ pub fn shrink(plan: &Plan) -> Vec<Plan> {
                 out.push(p);
             }
         }
+        ObjSpec::NumberRaw {
+            second_order,
+            v,
+            names,
+            dual,
+            dual2,
+            layout,
+        } => {
+            if *layout != 0 {
+                let mut p = plan.clone();
+                p.obj = ObjSpec::NumberRaw {
+                    second_order: *second_order,
+                    v: *v,
+                    names: names.clone(),
+                    dual: dual.clone(),
+                    dual2: dual2.clone(),
+                    layout: 0,
+                };
+                out.push(p);
+            }
+            if names.len() > 1 {
+                // drop the last variable
+                let n = names.len();
+                let mut d2 = Vec::new();
+                for i in 0..n - 1 {
+                    for j in 0..n - 1 {
+                        d2.push(dual2[i * n + j]);
+                    }
+                }
+                let mut p = plan.clone();
+                p.obj = ObjSpec::NumberRaw {
+                    second_order: *second_order,
+                    v: *v,
+                    names: names[..n - 1].to_vec(),
+                    dual: dual[..n - 1].to_vec(),
+                    dual2: d2,
+                    layout: *layout,
+                };
+                out.push(p);
+            }
+        }
         ObjSpec::NumberPair { a, b } => {
             for (first, n) in [(true, a), (false, b)] {
                 for c in c10::simpler_values(n.value()) {
@@ -1701,6 +1837,7 @@ impl Scenario for C16 {
         match &plan.obj {
             ObjSpec::Number { .. } => "life:number",
             ObjSpec::NumberPair { .. } => "life:number-pair",
+            ObjSpec::NumberRaw { .. } => "life:number-raw",
             ObjSpec::Cal(_) => "life:Cal",
             ObjSpec::Union(_) => "life:UnionCal",
             ObjSpec::Named(_) => "life:NamedCal",
